@@ -38,6 +38,12 @@ FlagDiff(exp, post) ==
   {x \in {"scc", "vcc", "exec", "pc", "m0"} :
      CASE x = "scc" -> exp.scc # post.scc [] x = "vcc" -> exp.vcc # post.vcc
        [] x = "exec" -> exp.exec # post.exec [] x = "pc" -> exp.pc # post.pc [] x = "m0" -> exp.m0 # post.m0}
+\* a difference in the flag that *is* the instruction's destination is reported as "d" / "sd"
+SpecialName(c) == CASE c = 106 -> "vcc" [] c = 126 -> "exec" [] c = 124 -> "m0" [] OTHER -> "-"
+Rename(S, rec) ==
+  LET dn == IF Has(rec, "d") THEN SpecialName(rec.d.c) ELSE "-"
+      sn == IF Has(rec, "sd") THEN SpecialName(rec.sd.c) ELSE "-"
+  IN {IF x = dn THEN "d" ELSE IF x = sn THEN "sd" ELSE x : x \in S}
 
 Common(rec) == (IF rec.other # 0 THEN {"other"} ELSE {}) \cup (IF Has(rec, "panic") THEN {"panic"} ELSE {})
 
@@ -53,42 +59,60 @@ ScalarDiff(rec) ==
              ELSE {}
   IN IF Has(rec, "panic") THEN {"panic"}
      ELSE IF Has(r, "ok") /\ ~r.ok THEN {"precondition"}
-     ELSE FlagDiff(fl, rec.post) \cup dd \cup Common(rec)
+     ELSE Rename(FlagDiff(fl, rec.post), rec) \cup dd \cup Common(rec)
 
 \* ---------------------------------------------------------------- vector ALU
-HasRef(nm) == nm \in IntNames \/ IsCmp(nm) \/ IsFSel(nm) \/ nm = "v_readfirstlane_b32"
+HasRef(nm) == nm \in IntNames \/ IsCmp(nm) \/ IsFSel(nm) \/ IsFloatArith(nm) \/ nm = "v_readfirstlane_b32"
 
 VecSem(nm, rec, k) ==
   IF nm \in IntNames THEN VIntSem(nm, rec, k)
   ELSE IF IsCmp(nm) THEN [d |-> <<>>, cc |-> VCmpSem(nm, rec, k)]
-  ELSE VFSelSem(nm, rec, k)
+  ELSE IF IsFSel(nm) THEN VFSelSem(nm, rec, k)
+  ELSE VFloatSem(nm, rec, k)
 
 Idle == [d |-> <<>>, cc |-> 0]
 
 \* does the observed lane value x satisfy the lane result r?
-LaneOk(r, x) == \/ x = r.d
+LaneOk(r, x) == \/ Has(r, "skip") /\ r.skip
+                \/ Has(r, "nan") /\ r.nan /\ F32IsNaN(x)
+                \/ Has(r, "nan64") /\ r.nan64 /\ F64IsNaN(x)
+                \/ Has(r, "nan16") /\ r.nan16 /\ x[2] = 0 /\ (x[1] \div 1024) % 32 = 31 /\ x[1] % 1024 # 0
+                \/ ~(Has(r, "nan") /\ r.nan) /\ ~(Has(r, "nan64") /\ r.nan64) /\ ~(Has(r, "nan16") /\ r.nan16) /\ x = r.d
                 \/ Has(r, "alt") /\ x = r.alt
                 \/ Has(r, "zero") /\ F32IsZero(r.d) /\ F32IsZero(x)
 
 FirstActive(st) == IF IsZero(st.exec) THEN 1 ELSE FindLow1(st.exec) + 1
 
+\* A lane-mask result (compare result, carry out) is prescribed for the active lanes only.  The
+\* manuals do not say what the bits of inactive lanes become (hardware writes 0): the specification
+\* accepts "zero" and "unchanged", uniformly for all inactive lanes.
+MaskCandidates(rec, R, old) ==
+  LET st == rec.pre
+  IN {MaskOf([k \in Lanes |-> IF ExecBit(st, k) = 1 THEN R[k].cc ELSE 0]),
+      MaskOf([k \in Lanes |-> IF ExecBit(st, k) = 1 THEN R[k].cc ELSE Bit(old, k - 1)])}
+
 VecDiff(rec) ==
   LET nm == Nm(rec)
       st == rec.pre
       R  == TLCEval([k \in Lanes |-> IF ExecBit(st, k) = 1 THEN VecSem(nm, rec, k) ELSE Idle])
-      mask == MaskOf([k \in Lanes |-> R[k].cc])
       vdst == Has(rec, "d") /\ rec.d.c >= 256
       dd == IF vdst /\ \E k \in Lanes : IF ExecBit(st, k) = 1 THEN ~LaneOk(R[k], rec.d.post[k])
                                         ELSE rec.d.post[k] # rec.d.pre[k]
             THEN {"d"} ELSE {}
       \* where the lane mask (compare result / carry out) goes
-      mdst == IF rec.f = "VOPC" THEN [c |-> 106, n |-> 2]
-              ELSE IF rec.f = "VOP2" /\ nm \in CarryOutNames THEN [c |-> 106, n |-> 2]
-              ELSE IF rec.f = "VOP3a" /\ IsCmp(nm) THEN rec.d
-              ELSE IF nm \in CarryOutNames /\ Has(rec, "sd") THEN rec.sd
-              ELSE [c |-> -1, n |-> 0]
-      fl == IF mdst.c >= 102 THEN WriteSpecial(st, mdst, mask) ELSE st
-      md == IF mdst.c >= 0 /\ mdst.c <= 101 /\ mask # mdst.post THEN {IF rec.f = "VOP3a" /\ IsCmp(nm) THEN "d" ELSE "sd"} ELSE {}
+      mkey == IF rec.f = "VOPC" THEN "vcc"
+              ELSE IF rec.f = "VOP2" /\ nm \in CarryOutNames THEN "vcc"
+              ELSE IF rec.f = "VOP3a" /\ IsCmp(nm) THEN "d"
+              ELSE IF nm \in CarryOutNames THEN "sd"
+              ELSE "-"
+      mdst == CASE mkey = "vcc" -> [c |-> 106, n |-> 2] [] mkey = "d" -> rec.d
+                [] mkey = "sd" -> (IF Has(rec, "sd") THEN rec.sd ELSE [c |-> -1, n |-> 0]) [] OTHER -> [c |-> -1, n |-> 0]
+      old  == IF mdst.c = 106 THEN st.vcc ELSE IF mdst.c >= 0 /\ mdst.c <= 101 THEN mdst.pre ELSE Z64
+      new  == IF mdst.c = 106 THEN rec.post.vcc ELSE IF mdst.c >= 0 /\ mdst.c <= 101 THEN mdst.post ELSE Z64
+      md   == IF mdst.c >= 0 /\ new \notin MaskCandidates(rec, R, old)
+              THEN {IF mkey = "vcc" THEN "vcc" ELSE mkey} ELSE {}
+      \* all other flags (and VCC when it is not the mask destination) must be unchanged
+      fl   == IF mdst.c = 106 THEN [st EXCEPT !.vcc = rec.post.vcc] ELSE st
   IN IF Has(rec, "panic") THEN {"panic"}
      ELSE dd \cup md \cup FlagDiff(fl, rec.post) \cup Common(rec)
 
